@@ -33,6 +33,8 @@ HARNESSES = {
     'k_lang': {'kind': 'complete', 'domain': 'all 26^3 lower-case three-letter codes (progressive mdhd packer)', 'timeout': 300, 'tier': 'quick'},
     'k_lang_und': {'kind': 'complete', 'domain': 'the constant "und"', 'timeout': 300, 'tier': 'quick'},
     'k_lang_frag': {'kind': 'complete', 'domain': 'all 26^3 lower-case three-letter codes + "und" (fragmented mdhd packer)', 'timeout': 300, 'tier': 'quick'},
+    'kb_lang_any_utf8': {'kind': 'bounded', 'domain': 'every valid UTF-8 string of at most 5 bytes (progressive packer)', 'timeout': 900, 'tier': 'quick'},
+    'kb_lang_frag_any_utf8': {'kind': 'bounded', 'domain': 'every valid UTF-8 string of at most 5 bytes (fragmented packer)', 'timeout': 900, 'tier': 'quick'},
     'k_send_sync': {'kind': 'complete', 'domain': 'all W: Write + Send / Sync (rustc trait solver)', 'timeout': 300, 'tier': 'quick'},
     'k_aliases': {'kind': 'complete', 'domain': 'all arguments of the builder alias pairs', 'timeout': 300, 'tier': 'quick'},
     'k_api_ticks_video': {'kind': 'complete', 'domain': 'all f64 bit patterns for pts and dts of the first frame, real Muxer::write_video_with_dts (VP9 keyframe)', 'timeout': 1800, 'tier': 'quick'},
